@@ -14,9 +14,11 @@ mod util;
 
 mod c00_probe;
 mod c01_data;
+mod c01_databuf;
 mod c01_reasm;
 mod c02_credit;
 mod c03_sender;
+mod c05_interlock;
 mod c07_alloc;
 mod c07_ports;
 mod c09_wire;
@@ -26,3 +28,5 @@ mod c13_vec;
 mod c99_tmp;
 mod c18_io;
 mod c11_close;
+mod c13_list;
+mod c04_baseio;
